@@ -10,7 +10,8 @@ import BytomModel.Gen.Authn
 namespace BytomModel.Ties.C36
 open BytomModel
 
-/-- the cache is keyed by `user + pw` — the expression `cachedCheck` mirrors with `user ++ pw` -/
+/-- the cache is keyed by `user + ":" + pw` (F22 fixed in ed51f8ca) — the expression
+    `cachedCheck` mirrors with `user ++ 58 :: pw`; reverting to `user + pw` breaks this obligation -/
 theorem cache_key_tied : Authn.cacheKeyExpr = Gen.Authn.cacheKeyExpr := by decide
 /-- a cached entry is used unless `now.After(lastLookup + tokenExpiry)` (strict) -/
 theorem stale_cond_tied : Authn.staleCond = Gen.Authn.staleCond := by decide
